@@ -32,6 +32,10 @@ import (
 //	sweep      every node's in-flight table is swept with now = far future (all pending entries expire)
 //	gossip1    (manual gossip mode) deliver pending broadcast number C to node Node
 //	gossipall  (manual gossip mode) deliver every pending broadcast everywhere, repeatedly, until none is left
+//	pubpart    client C writes only the first Split bytes of a PUBLISH (Topic/Payload + Pad filler bytes, PQoS); the rest follows with pubrest
+//	           (or before the client's next own step): a packet that arrives in two TCP segments, other things happening in between
+//	pubrest    the remainder of client C's pending partial PUBLISH
+//	churn      IdleMs (a count here) throw-away clients connect to node Node at the same moment and disconnect cleanly
 //	rpcunsub   an operator removes client C's subscription Filters[0] through node Node's DeleteSubscription RPC
 //	rpcclear   an operator clears the retained message of Topic in mount point MP through node Node's DeleteRetainedMessage RPC
 type Step struct {
@@ -53,6 +57,8 @@ type Step struct {
 	Bytes     []byte   `json:"bytes,omitempty"`
 	PID       uint16   `json:"pid,omitempty"`    // pub2hold / pub2rel: the client-chosen packet identifier
 	Victim    int      `json:"victim,omitempty"` // stallpub: the client that has stopped reading
+	Pad       int      `json:"pad,omitempty"`    // pubpart: the payload is extended by so many filler bytes
+	Split     int      `json:"split,omitempty"`  // pubpart: bytes of the packet written at first
 }
 
 type Will struct {
@@ -94,6 +100,10 @@ type Sess struct {
 	// every expected message at least as often as expected, nothing unexpected (a copy whose
 	// topic or payload differs from the original is something unexpected)
 	NoAck bool
+	// tail: the rest of a PUBLISH of which only the first bytes have been written (pubpart)
+	tail     []byte
+	tailStep Step
+	tailID   uint16
 }
 
 // World = Cluster + the reference model of who must have received what.
@@ -105,6 +115,7 @@ type World struct {
 	// Ambiguous: the script reached a point where two outcomes are both legitimate for the
 	// delivery model (see Apply "idle"); CheckDeliveries stops judging.
 	Ambiguous  bool
+	churned    int
 	everFailed bool // a node has failed at some point (its last broadcasts may be lost for some)
 	// Deaf: mount points whose delivery expectations are switched off (used by checks that
 	// only look at part of the picture).
@@ -247,7 +258,82 @@ func (w *World) Apply(st Step) (problem string, inconclusive bool) {
 		}
 		return true
 	}
+	// a client with half a packet on the wire finishes it before it says anything else
+	flushTail := func(x *Sess) (string, bool) {
+		if x == nil || x.tail == nil {
+			return "", true
+		}
+		tail, h, id := x.tail, x.tailStep, x.tailID
+		x.tail = nil
+		if !x.Alive || x.Node.Down || x.Displaced {
+			return "", true
+		}
+		w.touch(x)
+		w.modelPublish(w.mp(x), h.Topic, h.Payload+strings.Repeat("x", h.Pad), h.Retain, x.Node)
+		x.K.Send(tail)
+		if !settle() {
+			return problem, false
+		}
+		if h.PQoS == 1 && !x.K.Has(PUBACK, id) {
+			return fmt.Sprintf("client %d: no PUBACK for %q, a PUBLISH of %d bytes that arrived in two pieces (connection closed by broker: %v)", h.C, h.Topic, len(tail)+h.Split, x.K.Conn.State().BrokerClosed), true
+		}
+		return "", true
+	}
 	switch st.Op {
+	case "idle", "wait", "churn", "failnode", "failrestart", "restartnode", "gossip1", "gossipall", "sweep", "rpcunsub", "rpcclear", "pubpart":
+	default:
+		if p, ok := flushTail(s); p != "" || !ok {
+			return p, inconclusive
+		}
+	}
+	switch st.Op {
+	case "pubpart":
+		if s == nil || !s.Alive || s.Node.Down || s.Displaced || s.tail != nil || st.PQoS > 1 {
+			return "", false
+		}
+		id := s.nextPID
+		s.nextPID++
+		pkt := EncPublish(st.Topic, []byte(st.Payload+strings.Repeat("x", st.Pad)), st.PQoS, st.Retain, false, id)
+		k := st.Split
+		if k < 1 {
+			k = 1
+		}
+		if k >= len(pkt) {
+			k = len(pkt) - 1
+		}
+		st.Split = k
+		s.K.Send(pkt[:k])
+		s.tail, s.tailStep, s.tailID = pkt[k:], st, id
+		if !settle() {
+			return
+		}
+	case "pubrest":
+		// flushed above
+	case "churn":
+		n := w.Cl.Nodes[st.Node%len(w.Cl.Nodes)]
+		if n.Down {
+			return "", false
+		}
+		var ks []*Client
+		for i := int64(0); i < st.IdleMs; i++ {
+			w.churned++
+			k := w.Cl.NewClient(fmt.Sprintf("churn%d", w.churned))
+			k.AttachTo(n)
+			k.Send(EncConnect(ConnectOpts{ClientID: k.Name, KeepAlive: 600}))
+			ks = append(ks, k)
+		}
+		if !settle() {
+			return
+		}
+		for _, k := range ks {
+			if !k.Accepted {
+				return fmt.Sprintf("throw-away client %s: CONNECT not accepted (received %v)", k.Name, k.Rx), false
+			}
+			k.Send(EncDisconnect())
+		}
+		if !settle() {
+			return
+		}
 	case "connect":
 		if s.Connected {
 			return "", false
